@@ -11,6 +11,16 @@ namespace Grep
 theorem plainVariants_eq : plainVariants = [.extNum, .extNoSpaces, .ext, .noSep] := by
   decide
 
+/-! The extension length bounds regenerated from the source (one pair per regex variant) are
+the ones the fragments of the round-trip theorems are stated with. Every round-trip proof
+goes through these equations: a source edit to a variant's `{lo,hi}` breaks them. -/
+theorem extMinNum_eq : Generated.Grep.extMinNum = docExtMin := by decide
+theorem extMaxNum_eq : Generated.Grep.extMaxNum = docExtMax := by decide
+theorem extMin_eq : Generated.Grep.extMin = docExtMin := by decide
+theorem extMax_eq : Generated.Grep.extMax = docExtMax := by decide
+theorem extMinNoSpaces_eq : Generated.Grep.extMinNoSpaces = docExtMin := by decide
+theorem extMaxNoSpaces_eq : Generated.Grep.extMaxNoSpaces = docExtMaxNoSpaces := by decide
+
 theorem splitLastDot_append (a b : List Char) (hb : b.contains '.' = false) :
     splitLastDot (a ++ '.' :: b) = some (a, b) := by
   have hnone : ∀ l : List Char, l.contains '.' = false → splitLastDot l = none := by
